@@ -293,6 +293,32 @@ theorem dispatch_foreign {κ : Type} (T : Tables) (f : String) (args : List Arg)
   simp only [dispatch, hop, if_true]
   exact handlers_const T f _ args kw _ _ hop (fun c' => torchFunction_foreign T c' f _ args kw hne hty)
 
+/-! ### operators passed by keyword -/
+
+theorem dispatchK_nil {κ : Type} (T : Tables) (f : String) (args : List Arg) (kw : κ) :
+    dispatchK T f args [] kw = dispatch T f args kw := by
+  simp [dispatchK, dispatch]
+
+/-- `torch.f(x, other=op)`: the operator is found among the keyword arguments, its class handles the call,
+`args[0]` is not an instance, the second-argument path evaluates `args[1]` of a 1-tuple: `IndexError`
+(for a registered function; `NotImplementedError` otherwise). -/
+theorem dispatchK_operator_by_keyword {κ : Type} (T : Tables) (c f m d : String) (a0 : Arg) (kw : κ)
+    (h0 : a0.plain = true) (hf : T.second.lookup f = some m) (hr : resolve T.classes c m = some d) :
+    dispatchK T f [a0] [.op c] kw = .indexError := by
+  have hov : overloaded T.classes ([a0] ++ [.op c]) = [.opc c] :=
+    overloaded_plain_op_plain T.classes a0 c [] h0 (by simp)
+  simp only [dispatchK, hov, hasOp, if_true, handlers]
+  simp [torchFunction, isInstance_plain T.classes a0 c h0, hf, typesOK_single, hr]
+
+/-- `torch.f(op, other=x)`: first-argument path with the 1-tuple `(op,)`; `other` travels in kwargs. -/
+theorem dispatchK_other_by_keyword {κ : Type} (T : Tables) (c f m d : String) (kwops : List Arg) (kw : κ)
+    (hk : ∀ a ∈ kwops, a.plain = true) (hf : T.first.lookup f = some m) (hr : resolve T.classes c m = some d) :
+    dispatchK T f [.op c] kwops kw = .call d m [.op c] false kw := by
+  have hov : overloaded T.classes ([.op c] ++ kwops) = [.opc c] := overloaded_op_plain T.classes c kwops hk
+  simp only [dispatchK, hov, hasOp, if_true, handlers]
+  exact torchFunction_first T c f m d _ [] kw (.op c)
+    (by simpa [isInstance] using isSubclass_self_of_resolve T.classes c m d hr) (typesOK_single c) hf hr
+
 /-- kwargs reach the handler unchanged, on either path. -/
 theorem torchFunction_kw {κ : Type} (T : Tables) (c f : String) (types : List OType) (args : List Arg) (kw : κ)
     (d m : String) (args' : List Arg) (sw : Bool) (kw' : κ)
@@ -339,6 +365,13 @@ def reflectedAlphaOK (accepts : Bool) (b : BinFn) (m : Meth) : Bool :=
     | .sub, .drsub => true
     | _, _ => false)
 
+/-- With `alpha=a` the reflected handler accepts the keyword and computes `f(T, op, alpha=a)`. -/
+def reflectedAlphaExact (accepts : Bool) (b : BinFn) (m : Meth) : Bool :=
+  accepts && (match b, m with
+    | .add, .dradd => true
+    | .sub, .drsub => true
+    | _, _ => false)
+
 def directAlphaOK (accepts : Bool) (b : BinFn) (m : Meth) : Bool :=
   accepts && (match b, m with
     | .add, .add => true
@@ -355,6 +388,12 @@ def secondEntryAlphaOK (T : Tables) (c : String) (e : String × String) : Bool :
   T.second.lookup e.1 == some e.2 &&
     (match resolve T.classes c e.2, BinFn.ofName e.1, Meth.ofName e.2 with
      | some d, some b, some m => reflectedAlphaOK (acceptsAlpha T d e.2) b m
+     | _, _, _ => false)
+
+def secondEntryAlphaExact (T : Tables) (c : String) (e : String × String) : Bool :=
+  T.second.lookup e.1 == some e.2 &&
+    (match resolve T.classes c e.2, BinFn.ofName e.1, Meth.ofName e.2 with
+     | some d, some b, some m => reflectedAlphaExact (acceptsAlpha T d e.2) b m
      | _, _, _ => false)
 
 def firstEntryOK (T : Tables) (c : String) (e : String × String) : Bool :=
